@@ -234,7 +234,7 @@ theorem addAttributes_ord (stack : NsStack) (node : Path) (abs : List AttributeB
       · simp only [hrep, if_true]
         exact hab0.1
       · simp only [hrep]
-        by_cases hdup : (nameId == Env.xmlIdName && st.seenIds.contains ab.value) = true
+        by_cases hdup : (nameId == Env.xmlIdName && st.seenIds.contains (xmlIdValue nameId ab.value)) = true
         · simp only [hdup, if_true]
           exact hab0.2.1
         · simp only [hdup]
